@@ -989,6 +989,22 @@ class Deep:
     c_result_as_deref = c_result_as_ref
     c_result_as_deref_mut = c_result_as_ref
 
+    # task::Poll
+    POLL = ("Ready", "Pending")
+
+    def c_poll_is_pending(self, fr, st, a, site, cont):
+        v, _ = self._self(st, a[0])
+        self._case(st, v, "std::task::Poll", self.POLL, site, lambda s, n, p: cont(s, ("const", n == "Pending")))
+
+    def c_poll_is_ready(self, fr, st, a, site, cont):
+        v, _ = self._self(st, a[0])
+        self._case(st, v, "std::task::Poll", self.POLL, site, lambda s, n, p: cont(s, ("const", n == "Ready")))
+
+    def c_poll_map(self, fr, st, a, site, cont):
+        ready = lambda x: ("variant", "std::task::Poll", "Ready", (x,))
+        self._case(st, a[0], "std::task::Poll", self.POLL, site, lambda s, n, p: self._callf(fr, s, a[1], [p()], site, lambda s2, r: cont(s2, ready(r))) if n == "Ready"
+                   else cont(s, ("variant", "std::task::Poll", "Pending", ())))
+
     # ControlFlow
     CF = ("Continue", "Break")
 
@@ -1032,6 +1048,9 @@ _ENTP = re.compile(r"^std::collections::hash_map::Entry::<.*>::(or_insert_with|o
 _COMBP = re.compile(r"^(?:std|core)::(?:option|result|ops|ops::control_flow)::(Option|Result|ControlFlow)::<.*>::(\w+)$")
 
 
+_POLLP = re.compile(r"^(?:std|core)::task(?:::poll)?::Poll::<.*>::(is_pending|is_ready|map)$")
+
+
 class _M:
     def __init__(self, a, b):
         self.a, self.b = a, b
@@ -1054,6 +1073,9 @@ class COMB:
         m = _ENTP.match(path)
         if m:
             return _M("entry", m.group(1))
+        m = _POLLP.match(path)
+        if m:
+            return _M("poll", m.group(1))
         return None
 
 
